@@ -265,7 +265,16 @@ func c03Run(w *W) {
 				short := false
 				what := ""
 				mine := ids[ci]
-				switch w.Choose(simrt.SProg, 8) {
+				prefix := 0
+				switch w.Choose(simrt.SProg, 9) {
+				case 8: // routing words (no request bit) in front of the current id: a reply's header is the id alone
+					if len(mine) == 0 {
+						continue
+					}
+					prefix = 1 + w.Choose(simrt.SProg, 3)
+					id, what = uint32(w.Choose(simrt.SProg, 1<<30))&0x7fffffff, fmt.Sprintf("%d words without the request bit, then the current id", prefix)
+					w.Fault("msg-malformed")
+					w.Probe("reply-with-leading-routing-words")
 				case 0, 1, 2: // current id of ctx
 					if len(mine) == 0 {
 						continue
@@ -307,7 +316,14 @@ func c03Run(w *W) {
 				if short {
 					wire = []byte("abc")[:w.Choose(simrt.SProg, 4)]
 				} else {
-					wire = append(u32(id), tag...)
+					wire = u32(id)
+					for k := 1; k < prefix; k++ {
+						wire = append(wire, u32(uint32(w.Choose(simrt.SProg, 1<<30))&0x7fffffff)...)
+					}
+					if prefix > 0 {
+						wire = append(wire, u32(mine[len(mine)-1])...)
+					}
+					wire = append(wire, tag...)
 				}
 				ops = append(ops, m3Op{kind: "inject", id: id, tag: tag, short: short, desc: fmt.Sprintf("inject %s id=%08x (%s) on %s", tag, id, what, p.Name)})
 				w.Op("peer %s injects %s id=%08x (%s)", p.Name, tag, id, what)
